@@ -15,7 +15,7 @@ ALL_NAMES = ['A', 'B', 'C', 'D', 'Tz', 'D3', 'G', 'Pr', 'P', 'Pk', 'Pw', 'Mv', '
              'TzI', 'GT', 'CT', 'PrT', 'PT', 'PkT', 'PwT', 'MvT', 'RsT', 'RvT', 'BdT', 'R1T', 'R2T', 'R3T',
              'R1iT', 'R1vT', 'PlT', 'I2v', 'I3v', 'Iqu', 'Im', 'H2', 'Hh', 'H3', 'Hq', 'Hm', 'H6',
              'Dl', 'DlI', 'Prl', 'PrlT', 'BDl', 'BDi', 'BRl', 'BCl', 'Il', 'Hl', 'Mc', 'McT', 'Mn',
-             'Mp', 'Mq', 'MpT', 'Ma', 'Mb', 'MaT', 'Ob', 'ObT']
+             'Mp', 'Mq', 'MpT', 'Ma', 'Mb', 'MaT', 'Ob', 'ObT', 'Pp', 'PpT', 'Pn', 'BRt', 'BCt']
 
 # a smaller alphabet for longer chains: one representative per pattern of C07 plus contexts
 CORE_NAMES = ['A', 'AI', 'D', 'DI', 'H2', 'Hh', 'I2v', 'G', 'GT', 'Pr', 'PrT', 'P', 'PT', 'Pk', 'PkT', 'Tz', 'H3',
@@ -151,6 +151,38 @@ def validate(traces: list[dict]) -> tuple[dict, fx.TlcResult | None]:
     return verdicts, total
 
 
+def index_patterns(tier: str, seed: int, verd: fx.Verdicts) -> dict:
+    """C07, the indexing patterns on every legal index expression of MC_Index (not only the 1-d index atoms of
+    FxSigma): where FxIndex says IndexTransposeRule / TransposeIndexRule applies (duplicate-free indexing - whatever
+    the number of indexed axes; a single indexed axis), (P @ P.T).reduce() must be the identity and (P.T @ P).reduce()
+    a diagonal operator.  The soundness of those rewrites is C12's; a pattern left in place is C07's."""
+    import c12
+
+    gen = c12.generate(tier)
+    cases = [c for c in gen.cases if (c['ppt'] or c['ptp'] or (len(c['items']) == 1 and c['items'][0]['t'] == 'mask'))
+             and not c['reduce_id']]
+    for c in cases:
+        c['id'] = fx.case_id({'s': c['shape'], 'y': c['syms'], 'g': c['given']})
+    if tier == 'quick':
+        cases, _ = fx.stratified_sample(
+            cases, lambda c: (len(c['shape']), tuple(s[0] for s in c['syms']), c['ptp'], c['ppt'], c['given']), 3, seed)
+        if len(cases) > 700:
+            cases = random.Random(seed).sample(cases, 700)
+    for c in cases:
+        c['all_trees'] = False
+    cases.sort(key=lambda c: (c['shape'], c['outshape']))
+    results = fx.replay('c12', 'execute', cases, procs=fx.NPROC, chunksize=max(4, len(cases) // 64))
+    missed = 0
+    for c, r in zip(cases, results):
+        m = sorted({i.split('[')[0] for i in r.get('info', []) if i.startswith(('ppt_missed', 'ptp_missed', 'pack_unpack_missed'))})
+        if m:
+            missed += 1
+            label = f"{''.join(map(str, c['shape']))}:{','.join(c['syms'])}:{'u' if c['given'] else 'd'}"
+            verd.report(f"index_pattern_not_rewritten:{'+'.join(m)}:{label}", 'documented_pattern_not_rewritten',
+                        dict(c, c12_case=True), r)
+    return {'index_expressions': len(cases), 'not_rewritten': missed, 'states': gen.distinct, 'generated': gen.generated}
+
+
 def binding_selftest(traces: list[dict], rng) -> list[dict]:
     """Corrupted copies of recorded traces (one recorded field changed) that the trace specification must
     reject: the demonstration that Trace_Reduce is bound to what was recorded and is not vacuous.
@@ -183,7 +215,7 @@ def binding_selftest(traces: list[dict], rng) -> list[dict]:
 
 
 C01_CLAUSES = {'firing_unsound', 'firing_structure', 'den', 'structure', 'input_projection'}
-C07_CLAUSES = {'not_normal_form'}
+C07_CLAUSES = {'not_normal_form', 'less_reduced'}
 
 
 def judge(prop: str, cases: list[dict], traces: list[dict], verdicts: dict, verd: fx.Verdicts) -> dict:
@@ -318,6 +350,7 @@ def run(prop: str, tier: str, seed: int) -> int:
         if rej < floor:
             raise fx.MachineryError(f'binding self-test: only {rej} of {tot} corrupted traces ({kind}) rejected by Trace_Reduce')
     stats = judge(prop, picked, traces, verdicts, verd)
+    idxpat = index_patterns(tier, seed, verd) if prop == 'C07' else None
     rc = verd.finish()
     states = sum(g.distinct for g in gens) + nest.distinct + (tv.distinct if tv else 0)
     trans = sum(g.generated for g in gens) + nest.generated + (tv.generated if tv else 0)
@@ -337,6 +370,7 @@ def run(prop: str, tier: str, seed: int) -> int:
         'timing_s': {'chains_tlc': round(t1 - t0, 1), 'nested_tlc': round(t2 - t1, 1), 'replay': round(t3 - t2, 1),
                      'trace_validation': round(t4 - t3, 1)},
         'unreduced_operator_disagrees_with_spec': stats.get('unreduced_mismatch', [])[:20],
+        'index_patterns_MC_Index': idxpat,
         'binding_selftest': {k: {'corrupted': v[1], 'rejected': v[0]} for k, v in st_rejected.items()},
         'drift_traces': stats['drift'], 'drift_examples': stats.get('drift_examples', []), 'opaque_traces': stats['opaque'],
         'design_models': [{'distinct_states': g.distinct, 'generated': g.generated, 'depth': g.depth} for g in gens]
@@ -361,6 +395,13 @@ def replay_file(prop: str, path: str) -> int:
     doc = json.loads(open(path).read())
     case = doc['case'] if 'case' in doc else doc
     case.setdefault('id', 'replay')
+    if case.get('c12_case'):
+        verd = fx.Verdicts(prop)
+        r = fx.replay('c12', 'execute', [case], procs=1)[0]
+        print(json.dumps(r, indent=1)[:3000])
+        if any(i.startswith(('ppt_missed', 'ptp_missed', 'pack_unpack_missed')) for i in r.get('info', [])):
+            verd.report('index_pattern_not_rewritten:replay', 'documented_pattern_not_rewritten', case, r)
+        return verd.finish()
     traces = fx.replay('redcheck', 'execute', [case], procs=1)
     verdicts, _ = validate(traces)
     verd = fx.Verdicts(prop)
